@@ -464,6 +464,9 @@ func (g *Gen) buildCall(op *OpDesc) (Call, bool) {
 			if rng.Bool(0.02) {
 				n = []int{64, 65, 130, 257, 300}[rng.Intn(5)] // batch-size thresholds of bulk verifiers
 			}
+			if rng.Bool(0.003) {
+				n = []int{513, 600, 1025}[rng.Intn(3)]
+			}
 		}
 		if n > 0 && (len(ip) == 0 || len(w.S) == 0) {
 			return c, false
@@ -1309,7 +1312,10 @@ func (g *Gen) enumAliasMulti(op *OpDesc) {
 		return
 	}
 	// long term lists with the receiver in the tail (and at the very end)
-	for _, n := range []int{17, 40, 130, 260} {
+	for _, n := range []int{17, 40, 130, 260, 600, 1100} {
+		if n > 300 && !rng.Bool(0.15) {
+			continue
+		}
 		c := Call{Op: op.Name}
 		for i := 0; i < n; i++ {
 			c.P = append(c.P, ip[rng.Intn(len(ip))])
